@@ -68,6 +68,7 @@ type ReturnPoint struct {
 }
 
 type Exec struct {
+	fdDone map[*Term]bool
 	puApps []puApp
 	recDefined map[string]bool
 	quantDepth int
